@@ -159,3 +159,23 @@ def repo_hash(*rel: str) -> str:
             h.update(str(f).encode())
             h.update(f.read_bytes())
     return h.hexdigest()[:16]
+
+
+class CaseTimeout(Exception):
+    pass
+
+
+def guarded(fn, seconds: float = 2.0):
+    """Run fn() under an interval timer: code under test that loops forever becomes a CaseTimeout, not a hung check."""
+    import signal
+
+    def _raise(*a):
+        raise CaseTimeout(f"no result within {seconds}s")
+
+    old = signal.signal(signal.SIGALRM, _raise)
+    signal.setitimer(signal.ITIMER_REAL, seconds)
+    try:
+        return fn()
+    finally:
+        signal.setitimer(signal.ITIMER_REAL, 0)
+        signal.signal(signal.SIGALRM, old)
